@@ -1,6 +1,6 @@
 SPECIFICATION FairSpec
 CONSTANTS
- Prog <- P_sig2
+ Prog <- P_sig5
  SemInit = 0
  SigInit = FALSE
  AllowSpurious = TRUE
